@@ -34,9 +34,13 @@ VAR_RE = re.compile(r"^var_\d+$")
 # workload
 # ---------------------------------------------------------------------------------------------------------------------
 def case(sut, seed, ag="SIMPLE", algo="DYNAMOSA", no_xfail=False, black=True, post_process=True, iters=4, strategy="CASE",
-         direction="BACKWARD"):
-    return {"sut": sut, "seed": seed, "algo": algo, "ag": ag, "no_xfail": no_xfail, "black": black, "post_process": post_process,
-            "iters": iters, "strategy": strategy, "direction": direction}
+         direction="BACKWARD", fault=None):
+    c = {"sut": sut, "seed": seed, "algo": algo, "ag": ag, "no_xfail": no_xfail, "black": black, "post_process": post_process,
+         "iters": iters, "strategy": strategy, "direction": direction}
+    if fault:
+        # an injected fault of the *environment* (not a change of the code), applied through vlib.monitors.genfile_breaks
+        c["fault"] = fault
+    return c
 
 
 def directed_cases():
@@ -74,6 +78,11 @@ def directed_cases():
         case("account", 2, "SIMPLE", strategy="SUITE", direction="FORWARD"),
         # SUT that uses random: seed fixture in the written file
         case("rng_user", 0, "SIMPLE"),
+        # fault injection: every assertion-filtering execution times out (what machine load does); the written file must
+        # still pass, i.e. no unverified state-dependent assertion (class counters, ids) may be exported
+        case("account", 0, "SIMPLE", fault="filter_execution_times_out"),
+        case("account", 1, "SIMPLE", black=False, fault="filter_execution_times_out"),
+        case("account", 3, "MUTATION_ANALYSIS", no_xfail=True, fault="filter_execution_times_out"),
     ]
 
 
@@ -145,7 +154,7 @@ def run_case(ctx, c, idx, monitors=None, timeout=400):
     from vlib import core, sut_corpus
     from vlib.pyndriver import run_pipeline
 
-    brk = os.environ.get("VERIF_BREAK", "")
+    brk = ",".join(x for x in (os.environ.get("VERIF_BREAK", ""), c.get("fault") or "") if x)
     cache = os.environ.get("VERIF_GENFILES_CACHE")
     work = Path(ctx.scratch) / f"case{idx}"
     proj = sut_corpus.copy_to(work / "proj")
@@ -197,7 +206,7 @@ def unverified_assertions(res):
     """True when an assertion-filtering execution of the run timed out (machine load): AssertionGenerator then keeps every
     assertion of that test unverified (it fails open), so state-dependent assertions may be in the written file."""
     counts = next((e["counts"] for e in res.get("events", []) if e.get("ev") == "log-counts"), {})
-    return counts.get("filter_results_with_timeout", 0) > 0 or counts.get("timeouts_during_assertion_generation", 0) > 0
+    return counts.get("filter_results_with_timeout", 0) > 0
 
 
 def monitor_calls(res, monitor):
